@@ -226,6 +226,12 @@ impl ConfModel {
     /// D(config, client, interface): the documented address set, or None if
     /// the documentation says this client is not served at all.
     pub fn allowed(&self, chaddr: &[u8], lan: &Lan) -> Option<BTreeSet<u32>> {
+        self.allowed_src(chaddr, lan).0
+    }
+
+    /// The documented set, and whether it comes from a dhcp-policies pool
+    /// (true) or from the top-level `addresses` (false).
+    pub fn allowed_src(&self, chaddr: &[u8], lan: &Lan) -> (Option<BTreeSet<u32>>, bool) {
         let mut used = BTreeSet::new();
         for p in &self.policies {
             used.extend(p.all_used());
@@ -243,13 +249,17 @@ impl ConfModel {
         }
         let pool = match eval_policies(&self.policies, chaddr, lan.server_ip, base.clone()) {
             Some(p) => p,
-            None => base,
+            None => base.clone(),
         };
-        pool.map(|mut p| {
-            /* never the server's own address on the receiving interface */
-            p.remove(&u32::from(lan.server_ip));
-            p
-        })
+        let from_policy = pool != base;
+        (
+            pool.map(|mut p| {
+                /* never the server's own address on the receiving interface */
+                p.remove(&u32::from(lan.server_ip));
+                p
+            }),
+            from_policy,
+        )
     }
 }
 
@@ -301,6 +311,9 @@ pub struct MsgSpec {
     pub param_list: Vec<u8>,
     pub extra: Vec<(u8, Vec<u8>)>,
     pub xid: u32,
+    /// liveness probe: a well-formed request from a client with a reservation
+    #[serde(default)]
+    pub must_answer: bool,
 }
 
 #[derive(Clone, Debug, Serialize, Deserialize)]
@@ -358,7 +371,7 @@ pub struct GenOpts {
 }
 
 fn gen_lan(r: &mut Rng, idx: usize, large: bool) -> Lan {
-    let plen = if large { r.range(16, 23) as u8 } else { *r.pick(&[24u8, 24, 25, 26, 27, 28, 28, 29, 29, 30, 30]) };
+    let plen = if large { r.range(18, 23) as u8 } else { *r.pick(&[24u8, 24, 25, 26, 27, 28, 28, 29, 29, 30, 30]) };
     let base: u32 = match idx {
         0 => u32::from(Ipv4Addr::new(192, 168, r.range(0, 250) as u8, 0)),
         1 => u32::from(Ipv4Addr::new(10, r.range(0, 250) as u8, r.range(0, 250) as u8, 0)),
@@ -517,20 +530,140 @@ fn flags_value(r: &mut Rng) -> u16 {
     }
 }
 
+/// A hostile datagram for UDP port 67: random octets, or a valid request with
+/// boundary values written into its length, count and address fields.
+pub fn hostile_dhcp(r: &mut Rng) -> Vec<u8> {
+    if r.chance(0.12) {
+        let n = *r.pick(&[0usize, 1, 2, 43, 235, 236, 239, 240, 241, 300, 576, 1500, 4000]);
+        return r.bytes(n);
+    }
+    let mut m = crate::codec_dhcp::DhcpMsg::request(r.next_u64() as u32, &[2, 0, 0, 0, 0x66, r.below(250) as u8], 6);
+    m.options.push((53, vec![*r.pick(&[1u8, 3, 3, 1, 8, 7, 4])]));
+    if r.chance(0.5) {
+        m.options.push((55, vec![1, 3, 6, 15, 28, 51, 54, 114, 119, 121, 33, 26]));
+    }
+    let weird_len = |r: &mut Rng| -> usize { *r.pick(&[0usize, 1, 2, 3, 4, 5, 7, 8, 9, 17, 63, 64, 127, 254, 255]) };
+    for _ in 0..r.range(1, 4) {
+        /* options whose decoders have structure, with every awkward length */
+        let code = *r.pick(&[1u8, 3, 6, 12, 15, 33, 50, 51, 53, 54, 55, 57, 60, 61, 81, 119, 121, 121, 121, 252, 43, 82, 77, 255 - 1]);
+        let n = weird_len(r);
+        let mut v = r.bytes(n);
+        if code == 121 || code == 33 {
+            /* classless routes: prefix length octets at the boundaries */
+            for b in v.iter_mut().step_by(*r.pick(&[1usize, 5, 9])) {
+                *b = *r.pick(&[0u8, 1, 8, 24, 31, 32, 33, 63, 64, 65, 128, 255]);
+            }
+        }
+        if code == 119 {
+            /* search list: label lengths and compression pointers */
+            for b in v.iter_mut().step_by(*r.pick(&[1usize, 2, 3])) {
+                *b = *r.pick(&[0u8, 1, 63, 64, 0xc0, 0xc1, 0xff, 0x80]);
+            }
+        }
+        m.options.push((code, v));
+    }
+    if r.chance(0.3) {
+        m.hlen = *r.pick(&[0u8, 1, 5, 7, 15, 16, 17, 128, 255]);
+    }
+    if r.chance(0.1) {
+        m.htype = r.below(256) as u8;
+    }
+    let mut b = m.encode();
+    match r.below(10) {
+        0 => {
+            /* every truncation point is reachable over the seeds */
+            let cut = r.below(b.len() as u64 + 1) as usize;
+            b.truncate(cut);
+        }
+        1 => {
+            b.pop(); /* no End option */
+        }
+        2 => {
+            /* an option whose declared length runs past the end */
+            b.pop();
+            b.extend_from_slice(&[*r.pick(&[12u8, 61, 121, 119, 50]), *r.pick(&[1u8, 4, 200, 255])]);
+        }
+        3 => {
+            let i = 240 + r.below((b.len() - 240) as u64) as usize;
+            b[i] = *r.pick(&[0u8, 1, 254, 255]);
+        }
+        4 => {
+            let i = r.below(b.len() as u64) as usize;
+            b[i] ^= 1 << r.below(8);
+        }
+        5 => {
+            b[236] ^= 0xff; /* magic cookie */
+        }
+        _ => (),
+    }
+    b
+}
+
+struct Profile {
+    lans: &'static [usize],
+    p_roam: f64,
+    p_same_instant: f64,
+    w_dhcp: u64,
+    w_clock: u64,
+    w_restart: u64,
+    w_swap: u64,
+    w_http: u64,
+    w_diskfault: u64,
+    w_crash: u64,
+    w_raw: u64,
+    tracers: bool,
+    nasty: f64,
+    two_configs: f64,
+    rhythm: bool,
+    odd_hlen: f64,
+}
+
+fn profile(shape: &str) -> Profile {
+    let base = Profile {
+        lans: &[1, 1, 2, 2, 3],
+        p_roam: 0.08,
+        p_same_instant: 0.0,
+        w_dhcp: 78,
+        w_clock: 6,
+        w_restart: 5,
+        w_swap: 2,
+        w_http: 4,
+        w_diskfault: 2,
+        w_crash: 0,
+        w_raw: 0,
+        tracers: true,
+        nasty: 0.3,
+        two_configs: 0.5,
+        rhythm: false,
+        odd_hlen: 0.1,
+    };
+    match shape {
+        "concurrent" => Profile { p_same_instant: 0.5, w_http: 0, w_diskfault: 0, ..base },
+        "restart" => Profile { w_restart: 14, w_swap: 4, w_http: 0, w_diskfault: 0, ..base },
+        "crash" => Profile { w_crash: 14, w_restart: 2, w_http: 0, w_diskfault: 0, two_configs: 0.0, ..base },
+        "roam" => Profile { lans: &[2, 2, 3], p_roam: 0.45, w_http: 0, w_diskfault: 0, w_restart: 2, tracers: false, ..base },
+        "rhythm" => Profile { lans: &[1], w_dhcp: 90, w_clock: 8, w_restart: 2, w_swap: 0, w_http: 0, w_diskfault: 0, rhythm: true, tracers: false, two_configs: 0.0, odd_hlen: 0.0, ..base },
+        "wire" => Profile { w_restart: 1, w_http: 0, w_diskfault: 0, tracers: true, odd_hlen: 0.25, ..base },
+        "listing" => Profile { w_http: 22, w_dhcp: 64, w_diskfault: 0, nasty: 1.0, tracers: false, ..base },
+        "hostile" => Profile { w_raw: 40, w_dhcp: 45, w_http: 0, w_diskfault: 0, ..base },
+        _ => base,
+    }
+}
+
 pub fn generate(seed: u64, opts: &GenOpts) -> PlanA {
+    if opts.shape.starts_with("drain") {
+        return generate_drain(seed, opts.shape == "drain-large");
+    }
     let mut r = Rng::new(seed, "plan-a");
     let shape = opts.shape;
-    let nlans = if shape == "drain" { 1 } else { *r.pick(&[1usize, 1, 2, 2, 3]) };
-    let large = shape == "drain-large";
-    let lans: Vec<Lan> = (0..nlans).map(|i| gen_lan(&mut r, i, large)).collect();
-    let nasty = shape == "listing" || r.chance(0.3);
-    let nclients = match shape {
-        "drain" | "drain-large" => 0,
-        _ => r.range(1, if opts.thorough { 8 } else { 5 }) as usize,
-    };
+    let pf = profile(shape);
+    let nlans = *r.pick(pf.lans);
+    let lans: Vec<Lan> = (0..nlans).map(|i| gen_lan(&mut r, i, false)).collect();
+    let nasty = r.chance(pf.nasty);
+    let nclients = r.range(1, if opts.thorough { 8 } else { 5 }) as usize;
     let mut clients: Vec<ClientSpec> = (0..nclients)
         .map(|i| {
-            let hlen = if r.chance(0.9) { 6 } else { r.range(0, 16) as usize };
+            let hlen = if !r.chance(pf.odd_hlen) { 6 } else { r.range(0, 16) as usize };
             let mut chaddr = vec![0x02, 0x00, 0x00, 0x00, 0x01, i as u8 + 1];
             chaddr.resize(hlen.max(6), 0x40 + i as u8);
             chaddr.truncate(hlen);
@@ -548,50 +681,62 @@ pub fn generate(seed: u64, opts: &GenOpts) -> PlanA {
         clients[0].client_id = Some(id.clone());
         clients[1].client_id = Some(id);
     }
-    let policies_ok = !matches!(shape, "drain-large");
-    let tracers = matches!(shape, "wire" | "mixed");
-    let ncfg = if matches!(shape, "mixed" | "restart") && r.chance(0.5) { 2 } else { 1 };
-    let configs: Vec<ConfModel> = (0..ncfg).map(|_| gen_config(&mut r, &lans, &clients, policies_ok, tracers)).collect();
+    let ncfg = if r.chance(pf.two_configs) { 2 } else { 1 };
+    let configs: Vec<ConfModel> = (0..ncfg).map(|_| gen_config(&mut r, &lans, &clients, true, pf.tracers)).collect();
 
     let mut steps: Vec<Step> = vec![];
     let mut t: u64 = 1000;
-    let nsteps = match shape {
-        "drain" | "drain-large" => 0,
-        _ => r.range(6, if opts.thorough { 60 } else { 30 }) as usize,
-    };
-    let concurrent = matches!(shape, "mixed" | "concurrent") && r.chance(if shape == "concurrent" { 1.0 } else { 0.25 });
+    let nsteps = r.range(6, if opts.thorough { 60 } else { 30 }) as usize;
+    let same_instant_run = pf.p_same_instant > 0.0 || (shape == "mixed" && r.chance(0.25));
+    let p_same = if pf.p_same_instant > 0.0 { pf.p_same_instant } else { 0.1 };
     let mut xid = 0x1000_0000u32 | ((seed as u32) << 8 & 0x0fff_ff00);
+    let total_w = pf.w_dhcp + pf.w_clock + pf.w_restart + pf.w_swap + pf.w_http + pf.w_diskfault + pf.w_crash + pf.w_raw;
     for _ in 0..nsteps {
         /* time between steps: from the same instant to days */
-        let gap = match r.below(12) {
-            0 if concurrent => 0,
-            0..=3 => r.range(1, 5_000),
-            4..=6 => r.range(5_000, 400_000),
-            7..=8 => r.range(250_000, 350_000),
-            9 => r.range(400_000, 4_000_000),
-            10 => r.range(4_000_000, 90_000_000),
-            _ => r.range(80_000_000, 200_000_000),
+        let gap = if same_instant_run && r.chance(p_same) {
+            0
+        } else if pf.rhythm {
+            *r.pick(&[1_000u64, 1_000, 30_000, 149_000, 150_000, 151_000, 299_000, 300_000, 301_000, 600_000, 3_600_000, 43_200_000, 86_399_000, 86_400_000, 86_401_000, 172_800_000])
+        } else {
+            match r.below(12) {
+                0..=3 => r.range(1, 5_000),
+                4..=6 => r.range(5_000, 400_000),
+                7..=8 => r.range(250_000, 350_000),
+                9 => r.range(400_000, 4_000_000),
+                10 => r.range(4_000_000, 90_000_000),
+                _ => r.range(80_000_000, 200_000_000),
+            }
         };
         t += gap;
-        let roll = r.below(100);
-        let kind = if roll < 78 || clients.is_empty() {
-            if clients.is_empty() {
-                continue;
+        let mut roll = r.below(total_w);
+        let mut pick = |w: u64| {
+            if roll < w {
+                roll = u64::MAX;
+                true
+            } else {
+                roll -= w;
+                false
             }
+        };
+        let kind = if pick(pf.w_dhcp) {
             let ci = r.below(clients.len() as u64) as usize;
             let c = &clients[ci];
-            let lan = if r.chance(0.08) { r.below(nlans as u64) as usize } else { c.lan };
-            let mtype = match r.below(40) {
-                0..=14 => Some(1u8),
-                15..=31 => Some(3),
-                32 => Some(4),
-                33 => Some(7),
-                34 => Some(8),
-                35 => Some(2),
-                36 => Some(5),
-                37 => Some(r.below(256) as u8),
-                38 => None,
-                _ => Some(1),
+            let lan = if r.chance(pf.p_roam) { r.below(nlans as u64) as usize } else { c.lan };
+            let mtype = if pf.rhythm {
+                Some(*r.pick(&[1u8, 3, 3, 3]))
+            } else {
+                match r.below(40) {
+                    0..=14 => Some(1u8),
+                    15..=31 => Some(3),
+                    32 => Some(4),
+                    33 => Some(7),
+                    34 => Some(8),
+                    35 => Some(2),
+                    36 => Some(5),
+                    37 => Some(r.below(256) as u8),
+                    38 => None,
+                    _ => Some(1),
+                }
             };
             let any_host = |r: &mut Rng| -> Ipv4Addr {
                 let l = &lans[lan];
@@ -646,7 +791,7 @@ pub fn generate(seed: u64, opts: &GenOpts) -> PlanA {
                 mtype,
                 ciaddr,
                 requested,
-                server_id,
+                server_id: if pf.rhythm { None } else { server_id },
                 flags: flags_value(&mut r),
                 giaddr: if r.chance(0.05) { Some(Ipv4Addr::new(10, 99, 0, r.range(1, 200) as u8)) } else { None },
                 with_client_id: !r.chance(0.05),
@@ -654,8 +799,9 @@ pub fn generate(seed: u64, opts: &GenOpts) -> PlanA {
                 param_list,
                 extra,
                 xid,
+                must_answer: false,
             })
-        } else if roll < 84 {
+        } else if pick(pf.w_clock) {
             StepKind::ClockJump(match r.below(6) {
                 0 => -(r.range(1, 5) as i64),
                 1 => r.range(1, 600) as i64,
@@ -663,27 +809,92 @@ pub fn generate(seed: u64, opts: &GenOpts) -> PlanA {
                 3 => r.range(3_000, 90_000) as i64,
                 _ => r.range(80_000, 400_000) as i64,
             })
-        } else if roll < 90 && matches!(shape, "mixed" | "restart") {
+        } else if pick(pf.w_restart) {
             StepKind::Restart { cfg: r.below(ncfg as u64) as usize }
-        } else if roll < 93 && ncfg > 1 {
+        } else if pick(pf.w_swap) {
+            if ncfg < 2 {
+                continue;
+            }
             StepKind::SwapConfig { cfg: r.below(ncfg as u64) as usize }
-        } else if roll < 97 && matches!(shape, "mixed" | "listing") {
+        } else if pick(pf.w_http) {
             StepKind::Http {
                 path: r.pick(&["/api/v1/leases.json", "/api/v1/leases.json", "/metrics"]).to_string(),
-                via: match r.below(5) {
-                    0 => HttpVia::Tcp4,
-                    1 => HttpVia::Tcp6,
-                    2 => HttpVia::UnixAbstract,
-                    _ => HttpVia::UnixPath,
+                via: match r.below(8) {
+                    0 => HttpVia::Tcp6,
+                    1 => HttpVia::UnixAbstract,
+                    2 => HttpVia::UnixPath,
+                    3 => HttpVia::UnixUnnamed,
+                    _ => HttpVia::Tcp4,
                 },
                 from: "127.0.0.1".into(),
             }
-        } else if matches!(shape, "mixed" | "diskfault") && roll < 99 {
+        } else if pick(pf.w_diskfault) {
             StepKind::DiskFault { k: r.range(1, 8), full: r.chance(0.3) }
+        } else if pick(pf.w_crash) {
+            StepKind::CrashAtCall(r.range(1, 14))
+        } else if pick(pf.w_raw) {
+            StepKind::Raw { lan: r.below(nlans as u64) as usize, data: hostile_dhcp(&mut r) }
         } else {
             continue;
         };
         steps.push(Step { at_ms: t, kind });
+    }
+    let mut configs = configs;
+    let mut clients = clients;
+    if pf.w_raw > 0 {
+        /* liveness probes: a client with a reservation of its own asks right after
+         * every hostile datagram and must be answered */
+        let lan0 = &lans[0];
+        let probe = ClientSpec { chaddr: vec![0x02, 0, 0, 0, 0x77, 0x01], client_id: None, hostname: None, lan: 0 };
+        let hs: Vec<u32> = hosts(lan0.network(), lan0.plen).into_iter().filter(|a| *a != u32::from(lan0.server_ip)).collect();
+        let reserved = Ipv4Addr::from(*r.pick(&hs));
+        for c in configs.iter_mut() {
+            c.addresses.retain(|(a, l)| u32::from(*a) & mask(*l) != lan0.network());
+            c.policies.retain(|p| p.match_subnet.map(|(n, l)| u32::from(n) & mask(l) != lan0.network()).unwrap_or(true));
+            c.addresses.push((Ipv4Addr::from(lan0.network()), lan0.plen));
+            c.policies.push(PolicyM {
+                match_subnet: Some((Ipv4Addr::from(lan0.network()), lan0.plen)),
+                policies: vec![PolicyM { match_chaddr: Some(probe.chaddr.clone()), apply_address: vec![reserved], ..Default::default() }],
+                ..Default::default()
+            });
+        }
+        clients.push(probe);
+        let pi = clients.len() - 1;
+        let mut out = vec![];
+        for st in steps.into_iter() {
+            let is_raw = matches!(st.kind, StepKind::Raw { .. });
+            let at = st.at_ms;
+            out.push(st);
+            if is_raw {
+                xid = xid.wrapping_add(1);
+                out.push(Step {
+                    at_ms: at + 1,
+                    kind: StepKind::Dhcp(MsgSpec {
+                        client: pi,
+                        lan: 0,
+                        mtype: Some(1),
+                        ciaddr: AddrRef::None,
+                        requested: AddrRef::None,
+                        server_id: None,
+                        flags: 0,
+                        giaddr: None,
+                        with_client_id: false,
+                        with_hostname: false,
+                        param_list: vec![1, 3, 51, 54],
+                        extra: vec![],
+                        xid,
+                        must_answer: true,
+                    }),
+                });
+            }
+        }
+        steps = out;
+        /* keep instants strictly increasing where a probe was inserted */
+        for i in 1..steps.len() {
+            if steps[i].at_ms < steps[i - 1].at_ms {
+                steps[i].at_ms = steps[i - 1].at_ms;
+            }
+        }
     }
     PlanA {
         seed,
@@ -693,9 +904,122 @@ pub fn generate(seed: u64, opts: &GenOpts) -> PlanA {
         clients,
         steps,
         wall_base: 1_700_000_000 + r.below(200_000_000) as i64,
-        yield_p: if concurrent { *r.pick(&[0.0, 0.2, 0.5]) } else { 0.0 },
+        yield_p: if same_instant_run { *r.pick(&[0.0, 0.2, 0.5]) } else { 0.0 },
         spurious_p: if r.chance(0.3) { 0.05 } else { 0.0 },
         eintr_p: if r.chance(0.3) { 0.05 } else { 0.0 },
         prefill: vec![],
+    }
+}
+
+/// The drain shape (C02 "conversely" clause): fresh clients keep arriving
+/// until the pool is exhausted; then exactly the documented set was leased.
+pub fn generate_drain(seed: u64, large: bool) -> PlanA {
+    let mut r = Rng::new(seed, "plan-a-drain");
+    let lan = gen_lan(&mut r, 0, large);
+    let lans = vec![lan.clone()];
+    let net = Ipv4Addr::from(lan.network());
+    let written = if r.chance(0.3) { lan.server_ip } else { net };
+    let hs: Vec<u32> = hosts(lan.network(), lan.plen).into_iter().collect();
+    let mut conf = ConfModel {
+        addresses: vec![],
+        policies: vec![],
+        captive_portal: None,
+        dns_search: vec![],
+        api_listeners: vec!["127.0.0.1:9968".into()],
+        acls: None,
+    };
+    match if large { r.below(2) } else { r.below(4) } {
+        0 => conf.addresses.push((written, lan.plen)),
+        1 => conf.policies.push(PolicyM { match_subnet: Some((net, lan.plen)), apply_subnet: vec![(net, lan.plen)], ..Default::default() }),
+        2 => {
+            let (lo, hi) = if r.chance(0.5) || hs.len() < 3 {
+                (hs[0], *hs.last().unwrap())
+            } else {
+                let a = r.below(hs.len() as u64) as usize;
+                let b = r.range(a as u64, hs.len() as u64 - 1) as usize;
+                (hs[a], hs[b])
+            };
+            conf.policies.push(PolicyM { match_subnet: Some((net, lan.plen)), apply_range: vec![(lo.into(), hi.into())], ..Default::default() });
+        }
+        _ => {
+            /* addresses with a reserve-only hole */
+            conf.addresses.push((written, lan.plen));
+            let a = *r.pick(&hs);
+            if a != u32::from(lan.server_ip) {
+                conf.policies.push(PolicyM {
+                    match_subnet: Some((net, lan.plen)),
+                    policies: vec![PolicyM { apply_address: vec![a.into()], ..Default::default() }],
+                    ..Default::default()
+                });
+            }
+        }
+    }
+    let probe_chaddr = [0x02u8, 0, 0, 0, 9, 9];
+    let d: Vec<u32> = conf.allowed(&probe_chaddr, &lan).map(|s| s.into_iter().collect()).unwrap_or_default();
+    let wall_base = 1_700_000_000 + r.below(200_000_000) as i64;
+    /* large prefixes: occupy all but a few addresses through the harness so that
+     * only the interesting ones (always the first and last host) remain */
+    let mut prefill = vec![];
+    let mut remaining: Vec<u32> = d.clone();
+    if large {
+        let mut keep: std::collections::BTreeSet<u32> = Default::default();
+        if let (Some(f), Some(l)) = (d.first(), d.last()) {
+            keep.insert(*f);
+            keep.insert(*l);
+        }
+        for _ in 0..r.range(0, 4) {
+            keep.insert(*r.pick(&d));
+        }
+        for (i, a) in d.iter().enumerate() {
+            if !keep.contains(a) {
+                let id = vec![0xee, (i >> 16) as u8, (i >> 8) as u8, i as u8];
+                prefill.push((Ipv4Addr::from(*a), id, wall_base - 10, wall_base + 10_000_000));
+            }
+        }
+        remaining = keep.into_iter().collect();
+    }
+    let n = remaining.len() + 4;
+    let clients: Vec<ClientSpec> = (0..n)
+        .map(|i| ClientSpec { chaddr: vec![0x02, 0x00, 0x00, 0x07, (i >> 8) as u8, i as u8], client_id: None, hostname: None, lan: 0 })
+        .collect();
+    let mut steps = vec![];
+    let mut t = 1000u64;
+    let two_phase = r.chance(0.5);
+    for i in 0..n {
+        t += r.range(1, 2000);
+        let mk = |mtype: u8, requested: AddrRef, xid: u32| MsgSpec {
+            client: i,
+            lan: 0,
+            mtype: Some(mtype),
+            ciaddr: AddrRef::None,
+            requested,
+            server_id: None,
+            flags: 0,
+            giaddr: None,
+            with_client_id: false,
+            with_hostname: false,
+            param_list: vec![1, 3, 51, 54],
+            extra: vec![],
+            xid,
+            must_answer: false,
+        };
+        steps.push(Step { at_ms: t, kind: StepKind::Dhcp(mk(1, AddrRef::None, 0x2000_0000 + 2 * i as u32)) });
+        if two_phase {
+            t += 1;
+            steps.push(Step { at_ms: t, kind: StepKind::Dhcp(mk(3, AddrRef::LastOffered, 0x2000_0001 + 2 * i as u32)) });
+        }
+    }
+    PlanA {
+        seed,
+        shape: if large { "drain-large".into() } else { "drain".into() },
+        lans,
+        configs: vec![conf],
+        clients,
+        steps,
+        wall_base,
+        yield_p: 0.0,
+        spurious_p: 0.0,
+        eintr_p: 0.0,
+        prefill,
     }
 }
